@@ -1,6 +1,6 @@
 #!/bin/bash
 # usage: tools/run_all.sh "<ids>" [tier] [seed]   -> one summary line per property
-cd /verif
+cd "$(dirname "$0")/.."
 tier=${2:-quick}; seed=${3:-1}
 for p in $1; do
   out=$(VERIF_SEED=$seed ./check $p --tier $tier 2>/dev/null); rc=$?
